@@ -10,6 +10,10 @@ From Tickit Require Import RectDefs RectProofs WinRectSet WinRectSetProofs WinDe
 Import ListNotations.
 Local Open Scope Z_scope.
 
+(* rsfuel is a 300-deep unary numeral: keep the kernel from unfolding it (and with it the
+   fuelled loops of WinRectSet.v) when it checks conversions at Qed *)
+Local Strategy 1000 [rsfuel].
+
 (* ------------------------------------------------------------------------------------ *)
 (* A. root_damage                                                                        *)
 
@@ -127,13 +131,12 @@ Qed.
 Lemma win_expose_spec st id ex :
   all_nonempty (r_damage st) ->
   (ex = None -> forall w, t_chain id (r_tree st) = Some [w] -> nonempty (selfrect (t_info w))) ->
-  r_fault st = false ->
   r_fault (win_expose st id ex) = false ->
   dmg_ext st (win_expose st id ex) /\
   (forall chain R, t_chain id (r_tree st) = Some chain -> expose_up chain ex = Some R ->
      forall p, cell_in R p -> covered (r_damage (win_expose st id ex)) p).
 Proof.
-  intros Hne Hnone Hf0 Hf. unfold win_expose in *.
+  intros Hne Hnone Hf. unfold win_expose in *.
   destruct (t_chain id (r_tree st)) as [chain|] eqn:Ech.
   2:{ split; [apply dmg_ext_refl; assumption|]. intros c R Hc. discriminate. }
   destruct (expose_up chain ex) as [d|] eqn:Eup.
